@@ -106,12 +106,21 @@ example : ¬ HasTwoEquals "tcp:[::1]:5025:connect_timeout=2.5".toList ∧
                                        ("connect_timeout".toList, .flt "2.5".toList)]⟩ := by
   refine ⟨by decide, by decide, by decide, by decide, by decide⟩
 
-/-- no constructor mismatch can occur for an interface whose table is aligned with its constructor -/
+/-- a descriptor that reaches the constructor of an interface whose table is aligned with the constructor signature
+always binds: no `TypeError` there -/
+theorem aligned_never_mismatches (E : Env) (hE : EnvOk E = true) (win : Bool) (s : Str) (d : List (Str × PyVal))
+    (I : Iface) (c : Ctor) (p : Dict) (hr : Reaches E win s d I c p) (ha : Aligned I c = true) : Bindable c p := by
+  obtain ⟨parts, hp, hf, hpp, hc⟩ := hr
+  have hIm : I ∈ E.ifaces := List.mem_of_find?_eq_some hf
+  exact bindable_of_aligned (envOk_iface hE hIm hc).1 ha hpp
+
+/-- … so if every table is aligned, the second excluded class is empty -/
 theorem no_mismatch_of_aligned (E : Env) (win : Bool) (s : Str) (d : List (Str × PyVal)) (hE : EnvOk E = true)
     (ha : ∀ I ∈ E.ifaces, ∀ c, I.ctor win = some c → Aligned I c = true) : ¬ CtorMismatch E win s d := by
-  rintro ⟨I, c, p, ⟨parts, hp, hf, hpp, hc⟩, hb⟩
+  rintro ⟨I, c, p, hr, hb⟩
+  obtain ⟨parts, hp, hf, hpp, hc⟩ := hr
   have hIm : I ∈ E.ifaces := List.mem_of_find?_eq_some hf
-  exact hb (bindable_of_aligned (envOk_iface hE hIm hc).1 (ha I hIm c hc) hpp)
+  exact hb (aligned_never_mismatches E hE win s d I c p ⟨parts, hp, hf, hpp, hc⟩ (ha I hIm c hc))
 
 /-! ### which generated tables are aligned with their constructors (recomputed on every run) -/
 
